@@ -436,8 +436,11 @@ class FakeS3:
             got = 0
             sizes = self.body_read_sizes
             i = 0
+            enc0 = request.headers.get('Content-Encoding') or b''
+            chunked = 'aws-chunked' in (enc0.decode() if isinstance(enc0, bytes) else enc0)
             while True:
                 n = sizes[i % len(sizes)]
+                d.cancel_only_point(f'{akey}.send#{i}', 'before')
                 i += 1
                 if limit is not None and got + n > limit:
                     n = limit - got
@@ -455,7 +458,7 @@ class FakeS3:
                     break
                 parts.append(chunk)
                 got += len(chunk)
-                self.log.add('wire.read', key=akey, label=rec['label'], call_id=rec['call_id'], nbytes=len(chunk))
+                self.log.add('wire.read', key=akey, label=rec['label'], call_id=rec['call_id'], nbytes=len(chunk), chunked=chunked)
             raw = b''.join(parts)
         if mid is not None:
             mid['done'] = True
